@@ -4,6 +4,7 @@ state after the reload (rows, column lists, column types and nullability, index 
 the probe queries against EvalQ on that state."""
 import json
 import os
+import shutil
 import time
 
 import engine_check as ec
@@ -22,8 +23,10 @@ def _hist_scenarios(prop_id, tier, seed, fmts, sample):
     import random
     import props
     scen, stats = props.idx_scenarios(prop_id, tier, seed, 10 ** 9, 0)
-    rc, out = vc.tlc("MC_Idx", "MC_Idx_probes.cfg", os.path.join(vc.RUN, "gen_probes_%d" % os.getpid()), workers=1, timeout=300)
+    pwd = os.path.join(vc.RUN, "gen_probes_%d" % os.getpid())
+    rc, out = vc.tlc("MC_Idx", "MC_Idx_probes.cfg", pwd, workers=1, timeout=300)
     probes = vc.extract_tagged(out, "PROBES")[-1]
+    shutil.rmtree(pwd, ignore_errors=True)
     rnd = random.Random(seed)
     # histories that end inside a transaction are skipped (the model leaves saving inside a transaction open)
     def closed(steps):
